@@ -990,6 +990,28 @@ def canon_block(block, fn, counts):
             block[i:i + 1] = out
             counts["chained-assignment-split"] = counts.get("chained-assignment-split", 0) + 1
             continue
+        # X = next((v for v in IT if C), None) ; if X is not None: BODY(X) <ends in a jump>   ->   for v in IT: if C: BODY(v)
+        if isinstance(st, ast.Assign) and len(st.targets) == 1 and isinstance(st.targets[0], ast.Name) and isinstance(st.value, ast.Call) \
+                and isinstance(st.value.func, ast.Name) and st.value.func.id == "next" and len(st.value.args) == 2 and not st.value.keywords \
+                and isinstance(st.value.args[1], ast.Constant) and st.value.args[1].value is None and isinstance(st.value.args[0], ast.GeneratorExp) \
+                and isinstance(nxt, ast.If) and not nxt.orelse:
+            X, g = st.targets[0].id, st.value.args[0]
+            t = nxt.test
+            if len(g.generators) == 1 and isinstance(g.generators[0].target, ast.Name) and isinstance(g.elt, ast.Name) and g.elt.id == g.generators[0].target.id \
+                    and not g.generators[0].is_async and g.generators[0].ifs \
+                    and isinstance(t, ast.Compare) and len(t.ops) == 1 and isinstance(t.ops[0], ast.IsNot) and isinstance(t.left, ast.Name) and t.left.id == X \
+                    and isinstance(t.comparators[0], ast.Constant) and t.comparators[0].value is None \
+                    and nxt.body and isinstance(nxt.body[-1], (ast.Return, ast.Raise)) \
+                    and not any(isinstance(n, ast.Name) and n.id == X for b in block[i + 2:] for n in ast.walk(b)):
+                v = g.generators[0].target.id
+                body = [_Subst({X: v}).visit(b) for b in nxt.body]
+                conds_ = g.generators[0].ifs
+                test = conds_[0] if len(conds_) == 1 else ast.BoolOp(op=ast.And(), values=list(conds_))
+                loop = loc(ast.For(target=ast.Name(id=v, ctx=ast.Store()), iter=g.generators[0].iter,
+                                   body=[loc(ast.If(test=test, body=body, orelse=[]), nxt)], orelse=[], type_comment=None), st)
+                block[i:i + 2] = [loop]
+                counts["next(search)->loop"] = counts.get("next(search)->loop", 0) + 1
+                continue
         # X = {..} ; X.update(E)   ->   X = {.., **E}
         if isinstance(st, ast.Assign) and len(st.targets) == 1 and isinstance(st.targets[0], ast.Name) and isinstance(st.value, ast.Dict) \
                 and isinstance(nxt, ast.Expr) and isinstance(nxt.value, ast.Call) and isinstance(nxt.value.func, ast.Attribute) and nxt.value.func.attr == "update" \
@@ -1116,6 +1138,17 @@ def canon_block(block, fn, counts):
             block[i:i + 1] = out
             counts["literal-loop-unrolled"] = counts.get("literal-loop-unrolled", 0) + 1
             continue
+        # if c: X.append(A) else: X.append(B)   ->   X.append(A if c else B)      (the single-item form keeps its conditional value: see below)
+        if isinstance(st, ast.If) and len(st.body) == 1 and len(st.orelse) == 1:
+            a_, b_ = st.body[0], st.orelse[0]
+
+            def one_append(e):
+                return isinstance(e, ast.Expr) and isinstance(e.value, ast.Call) and isinstance(e.value.func, ast.Attribute) and e.value.func.attr in ("append", "add") \
+                    and len(e.value.args) == 1 and not e.value.keywords and _simple_arg(e.value.func.value) and not isinstance(e.value.args[0], ast.Starred)
+            if one_append(a_) and one_append(b_) and ast.unparse(a_.value.func) == ast.unparse(b_.value.func):
+                block[i] = loc(ast.Expr(value=ast.Call(func=a_.value.func, args=[loc(ast.IfExp(test=st.test, body=a_.value.args[0], orelse=b_.value.args[0]), st)], keywords=[])), st)
+                counts["if/else-append->conditional-item"] = counts.get("if/else-append->conditional-item", 0) + 1
+                continue
         # X.extend(A if c else B)  ->  if c: X.extend(A) else: X.extend(B)   (update alike; a single-item append/add keeps its conditional value)
         if isinstance(st, ast.Expr) and isinstance(st.value, ast.Call) and isinstance(st.value.func, ast.Attribute) and st.value.func.attr in ("extend", "update") \
                 and len(st.value.args) == 1 and not st.value.keywords and isinstance(st.value.args[0], ast.IfExp):
@@ -1227,6 +1260,78 @@ def negate(e):
     if isinstance(e, ast.Compare) and len(e.ops) == 1 and type(e.ops[0]) in NEGOP:
         return ast.Compare(left=e.left, ops=[NEGOP[type(e.ops[0])]()], comparators=e.comparators)
     return ast.UnaryOp(op=ast.Not(), operand=e)
+
+
+def _own_attribute_aliases(fn, module_tree, counts):
+    """Local names that only stand for an attribute of `self`:
+    (1) `x = self.a` with x bound once and `a` stored nowhere in the module outside __init__ methods (so the attribute is the same object for
+        the whole call): x is replaced by `self.a`;
+    (2) `x = E` directly followed by `self.a = x` (also as one element of a tuple target): the value is stored straight into the attribute
+        (`self.a = E`) and the later reads of x read `self.a` -- provided this function stores `self.a` nowhere else and x is bound once."""
+    if not fn.args.args or fn.args.args[0].arg != "self":
+        return
+    stored_outside_init = set()
+    for f in ast.walk(module_tree):
+        if isinstance(f, FUNC) and f.name != "__init__":
+            for n in ast.walk(f):
+                if isinstance(n, ast.Attribute) and isinstance(n.ctx, (ast.Store, ast.Del)):
+                    stored_outside_init.add(n.attr)
+    nstores = {}
+    for n in ast.walk(fn):
+        if isinstance(n, ast.Name) and isinstance(n.ctx, (ast.Store, ast.Del)):
+            nstores[n.id] = nstores.get(n.id, 0) + 1
+        elif isinstance(n, (ast.Global, ast.Nonlocal)):
+            for x in n.names:
+                nstores[x] = nstores.get(x, 0) + 2
+
+    def substitute(x, attr_node, skip=()):
+        for n in ast.walk(fn):
+            for f, v in ast.iter_fields(n):
+                if isinstance(v, ast.Name) and v.id == x and isinstance(v.ctx, ast.Load) and v not in skip:
+                    setattr(n, f, loc(copy.deepcopy(attr_node), v))
+                elif isinstance(v, list):
+                    for k, e in enumerate(v):
+                        if isinstance(e, ast.Name) and e.id == x and isinstance(e.ctx, ast.Load) and e not in skip:
+                            v[k] = loc(copy.deepcopy(attr_node), e)
+    for holder, fld, block in blocks_of(fn):
+        i = 0
+        while i < len(block):
+            st = block[i]
+            nxt = block[i + 1] if i + 1 < len(block) else None
+            i += 1
+            # (1)
+            if isinstance(st, ast.Assign) and len(st.targets) == 1 and isinstance(st.targets[0], ast.Name) and isinstance(st.value, ast.Attribute) \
+                    and isinstance(st.value.value, ast.Name) and st.value.value.id == "self" and nstores.get(st.targets[0].id) == 1 \
+                    and st.value.attr not in stored_outside_init and block is fn.body:
+                x = st.targets[0].id
+                if any(isinstance(g, FUNC + (ast.Lambda,)) and g is not fn and any(isinstance(y, ast.Name) and y.id == x for y in ast.walk(g)) for g in ast.walk(fn)):
+                    continue        # captured by a nested function: leave it
+                substitute(x, st.value)
+                block.remove(st)
+                i -= 1
+                counts["own-attribute-alias-expanded"] = counts.get("own-attribute-alias-expanded", 0) + 1
+                continue
+            # (2)
+            if isinstance(st, ast.Assign) and len(st.targets) == 1 and isinstance(nxt, ast.Assign) and len(nxt.targets) == 1 and isinstance(nxt.value, ast.Name) \
+                    and isinstance(nxt.targets[0], ast.Attribute) and isinstance(nxt.targets[0].value, ast.Name) and nxt.targets[0].value.id == "self":
+                x, attr = nxt.value.id, nxt.targets[0]
+                tgt = st.targets[0]
+                slots = [tgt] if isinstance(tgt, ast.Name) else list(tgt.elts) if isinstance(tgt, ast.Tuple) else []
+                hit = [k for k, e in enumerate(slots) if isinstance(e, ast.Name) and e.id == x]
+                same_attr_stores = sum(1 for n in ast.walk(fn) if isinstance(n, ast.Attribute) and isinstance(n.ctx, (ast.Store, ast.Del)) and ast.unparse(n) == ast.unparse(attr))
+                if len(hit) == 1 and nstores.get(x) == 1 and same_attr_stores == 1 \
+                        and not any(isinstance(g, FUNC + (ast.Lambda,)) and g is not fn and any(isinstance(y, ast.Name) and y.id == x for y in ast.walk(g)) for g in ast.walk(fn)):
+                    new_t = loc(ast.Attribute(value=ast.Name(id="self", ctx=ast.Load()), attr=attr.attr, ctx=ast.Store()), attr)
+                    if isinstance(tgt, ast.Name):
+                        st.targets[0] = new_t
+                    else:
+                        tgt.elts[hit[0]] = new_t
+                    block.remove(nxt)
+                    load = ast.Attribute(value=ast.Name(id="self", ctx=ast.Load()), attr=attr.attr, ctx=ast.Load())
+                    substitute(x, load)
+                    counts["value-stored-straight-into-attribute"] = counts.get("value-stored-straight-into-attribute", 0) + 1
+                    i -= 1
+                    continue
 
 
 def _global_aliases(fn, counts):
@@ -1930,6 +2035,7 @@ def normalise(tree, modname, keyword_names=frozenset(), ref=None, stats=None):
             for holder, fld, block in reversed(list(blocks_of(fn))):     # inner blocks first
                 canon_block(block, fn, stats)
         _global_aliases(fn, stats)
+        _own_attribute_aliases(fn, tree, stats)
         _merge_accumulators(fn, stats)
         _nested_defs_as_lambdas(fn, set(ref.get("nested", {}).get(q, [])) if known else None or set(), stats) if known else None
         _single_use_temps(fn, stats)
@@ -2153,6 +2259,309 @@ def undo_function_renames(trees, ref=None, stats=None):
 
 
 # ------------------------------------------------------------------------------------------------ annotations, named lambdas
+# ------------------------------------------------------------------------------------------------ private record types
+def undo_private_records(trees, ref=None, stats=None):
+    """A private NamedTuple (class _X(NamedTuple) with annotated fields, or _X = namedtuple("_X", ...)) that the reference does not know is
+    a tuple with names: constructor calls become tuple displays, `v.field` becomes `v[i]` where v is known to hold such a record, and a
+    name that holds a record and is only indexed is unpacked (`for t in L: f(t[0], t[1])` -> `for _r_a, _r_b in L: f(_r_a, _r_b)`).
+    "Known to hold a record": bound from a constructor call, from a function all of whose returns are records (resolved by name through
+    the package, fixed point), from an element of a list / a value of a dict attribute into which only records are ever stored, or by
+    iterating over such a list.  Anything else keeps its attribute access (and the rules then fail closed)."""
+    ref = reference() if ref is None else ref
+    stats = stats if stats is not None else {}
+    known_names = {n for names in ref.get("module_names", {}).values() for n in names}
+    records = {}
+    for m, tree in trees.items():
+        for st in list(tree.body):
+            if isinstance(st, ast.ClassDef) and _is_private(st.name) and st.name not in known_names \
+                    and any(ast.unparse(b) in ("NamedTuple", "typing.NamedTuple") for b in st.bases):
+                body = _strip_doc(st.body)
+                if body and all(isinstance(b, ast.AnnAssign) and isinstance(b.target, ast.Name) and b.value is None for b in body):
+                    records[st.name] = ([b.target.id for b in body], m, st)
+            elif isinstance(st, ast.Assign) and len(st.targets) == 1 and isinstance(st.targets[0], ast.Name) and _is_private(st.targets[0].id) \
+                    and st.targets[0].id not in known_names and isinstance(st.value, ast.Call) and ast.unparse(st.value.func) in ("namedtuple", "collections.namedtuple") \
+                    and len(st.value.args) == 2 and not st.value.keywords:
+                f = st.value.args[1]
+                fields = None
+                if isinstance(f, ast.Constant) and isinstance(f.value, str):
+                    fields = f.value.replace(",", " ").split()
+                elif isinstance(f, (ast.List, ast.Tuple)) and all(isinstance(e, ast.Constant) and isinstance(e.value, str) for e in f.elts):
+                    fields = [e.value for e in f.elts]
+                if fields:
+                    records[st.targets[0].id] = (fields, m, st)
+    if not records:
+        return
+
+    def ctor(e):
+        return e.func.id if isinstance(e, ast.Call) and isinstance(e.func, ast.Name) and e.func.id in records else None
+    funcs = [f for t in trees.values() for f in ast.walk(t) if isinstance(f, FUNC)]
+    # containers: attribute name -> record, when every store into `<obj>.<attr>` / `<obj>.<attr>[k]` is an empty container, a record, or a
+    # list / comprehension of records
+    attr_elem = {}
+    bad_attr = set()
+    for t in trees.values():
+        for c in ast.walk(t):
+            if isinstance(c, ast.ClassDef):
+                for x in ast.walk(c):
+                    if not hasattr(x, "_rec_cls") or isinstance(x, ast.ClassDef) is False:
+                        x._rec_cls = getattr(x, "_rec_cls", None) or c.name
+
+    def akey(attr_node):
+        """(class, attribute) for `self.<attr>` written inside a class, else None: only the object's own attributes are typed"""
+        if isinstance(attr_node, ast.Attribute) and isinstance(attr_node.value, ast.Name) and attr_node.value.id == "self" and getattr(attr_node, "_rec_cls", None):
+            return (attr_node._rec_cls, attr_node.attr)
+        return None
+    for t in trees.values():
+        for n in ast.walk(t):
+            tgt_val = []
+            if isinstance(n, ast.Assign):
+                tgt_val = [(tg, n.value) for tg in n.targets]
+            for tg, v in tgt_val:
+                if isinstance(tg, ast.Attribute):
+                    a = akey(tg)
+                    if a is None:
+                        continue
+                    r = None
+                    if isinstance(v, ast.ListComp) and ctor(v.elt):
+                        r = ctor(v.elt)
+                    elif isinstance(v, (ast.List, ast.Tuple)) and v.elts and all(ctor(e) for e in v.elts) and len({ctor(e) for e in v.elts}) == 1:
+                        r = ctor(v.elts[0])
+                    elif (isinstance(v, (ast.List, ast.Dict)) and not (v.elts if isinstance(v, ast.List) else v.keys)):
+                        continue
+                    if r is None or attr_elem.get(a, r) != r:
+                        bad_attr.add(a)
+                    else:
+                        attr_elem[a] = r
+                elif isinstance(tg, ast.Subscript) and isinstance(tg.value, ast.Attribute):
+                    a = akey(tg.value)
+                    if a is None:
+                        continue
+                    r = ctor(v)
+                    if r is None or attr_elem.get(a, r) != r:
+                        bad_attr.add(a)
+                    else:
+                        attr_elem[a] = r
+        for n in ast.walk(t):
+            if isinstance(n, ast.Call) and isinstance(n.func, ast.Attribute) and n.func.attr in ("append", "add", "insert", "extend", "update", "setdefault") \
+                    and isinstance(n.func.value, ast.Attribute):
+                a = akey(n.func.value)
+                r = ctor(n.args[-1]) if n.args and n.func.attr in ("append", "add", "insert") else None
+                if a in attr_elem and r != attr_elem[a]:
+                    bad_attr.add(a)
+    for a in bad_attr:
+        attr_elem.pop(a, None)
+    returns = {}
+
+    def typ(e, env):
+        """record name an expression is known to evaluate to, or None"""
+        if ctor(e):
+            return ctor(e)
+        if isinstance(e, ast.Name):
+            return env.get(e.id)
+        if isinstance(e, ast.Subscript) and isinstance(e.value, ast.Attribute) and akey(e.value) in attr_elem:
+            return attr_elem[akey(e.value)]
+        if isinstance(e, ast.Call):
+            name = e.func.id if isinstance(e.func, ast.Name) else e.func.attr if isinstance(e.func, ast.Attribute) else None
+            return returns.get(name)
+        return None
+
+    def elem_typ(e, env, lists):
+        while isinstance(e, ast.Call) and isinstance(e.func, ast.Name) and e.func.id in ("reversed", "list", "tuple", "sorted", "iter") and len(e.args) == 1:
+            e = e.args[0]
+        if isinstance(e, ast.Name):
+            return lists.get(e.id)
+        if isinstance(e, ast.Attribute) and akey(e) in attr_elem:
+            return attr_elem[akey(e)]
+        return None
+
+    def local_env(fn):
+        lists = {}
+        cand = {}
+        for n in ast.walk(fn):
+            if isinstance(n, ast.Assign) and len(n.targets) == 1 and isinstance(n.targets[0], ast.Name):
+                v = n.value
+                if isinstance(v, ast.List) and not v.elts:
+                    cand.setdefault(n.targets[0].id, set())
+                elif isinstance(v, ast.ListComp) and ctor(v.elt):
+                    cand.setdefault(n.targets[0].id, set()).add(ctor(v.elt))
+                else:
+                    cand.setdefault(n.targets[0].id, set()).add(None) if n.targets[0].id in cand else None
+            if isinstance(n, ast.Call) and isinstance(n.func, ast.Attribute) and isinstance(n.func.value, ast.Name) and n.func.attr in ("append", "insert", "extend"):
+                cand.setdefault(n.func.value.id, set()).add(ctor(n.args[-1]) if n.args and n.func.attr != "extend" else None)
+        for k, v in cand.items():
+            if len(v) == 1 and None not in v:
+                lists[k] = next(iter(v))
+        env = {}
+        for _ in range(3):
+            binds = {}
+            for n in ast.walk(fn):
+                if isinstance(n, ast.Assign) and len(n.targets) == 1 and isinstance(n.targets[0], ast.Name):
+                    binds.setdefault(n.targets[0].id, []).append(typ(n.value, env))
+                elif isinstance(n, (ast.For, ast.comprehension)) and isinstance(n.target, ast.Name):
+                    binds.setdefault(n.target.id, []).append(elem_typ(n.iter, env, lists))
+                elif isinstance(n, (ast.For, ast.comprehension, ast.With)):
+                    for x in ast.walk(getattr(n, "target", None) or ast.Tuple(elts=[i.optional_vars for i in n.items if i.optional_vars is not None], ctx=ast.Store())):
+                        if isinstance(x, ast.Name):
+                            binds.setdefault(x.id, []).append(None)
+                elif isinstance(n, ast.Assign):
+                    for tg in n.targets:
+                        for x in ast.walk(tg):
+                            if isinstance(x, ast.Name) and isinstance(x.ctx, ast.Store):
+                                binds.setdefault(x.id, []).append(None)
+                elif isinstance(n, (ast.AugAssign, ast.NamedExpr)) and isinstance(n.target, ast.Name):
+                    binds.setdefault(n.target.id, []).append(None)
+            for a in fn.args.posonlyargs + fn.args.args + fn.args.kwonlyargs:
+                binds.setdefault(a.arg, []).append(None)
+            env = {k: v[0] for k, v in binds.items() if v and all(x is not None and x == v[0] for x in v)}
+        return env
+    for _ in range(4):          # return types by name, to a fixed point
+        new = {}
+        byname = {}
+        for f in funcs:
+            byname.setdefault(f.name, []).append(f)
+        for name, fs in byname.items():
+            ts = set()
+            for f in fs:
+                env = local_env(f)
+                rets = [n for n in ast.walk(f) if isinstance(n, ast.Return)]
+                own = [n for n in rets if _owner_function(n, f)]
+                ts |= {typ(r.value, env) if r.value is not None else None for r in own} or {None}
+            if len(ts) == 1 and None not in ts:
+                new[name] = next(iter(ts))
+        if new == returns:
+            break
+        returns = new
+    n_fields = n_ctor = n_unpack = 0
+    for f in funcs:
+        env = local_env(f)
+        if not env:
+            continue
+        for n in ast.walk(f):
+            for fld, val in ast.iter_fields(n):
+                vals = val if isinstance(val, list) else [val]
+                for k, x in enumerate(vals):
+                    if isinstance(x, ast.Attribute) and isinstance(x.ctx, ast.Load) and isinstance(x.value, ast.Name) and env.get(x.value.id) in records \
+                            and x.attr in records[env[x.value.id]][0]:
+                        sub = loc(ast.Subscript(value=x.value, slice=ast.Constant(value=records[env[x.value.id]][0].index(x.attr)), ctx=ast.Load()), x)
+                        if isinstance(val, list):
+                            val[k] = sub
+                        else:
+                            setattr(n, fld, sub)
+                        n_fields += 1
+        # a record-holding name that is only indexed with constants: unpack it where it is bound
+        for name, r in env.items():
+            uses = [x for x in ast.walk(f) if isinstance(x, ast.Name) and x.id == name]
+            loads = [x for x in uses if isinstance(x.ctx, ast.Load)]
+            subs = [x for x in ast.walk(f) if isinstance(x, ast.Subscript) and isinstance(x.value, ast.Name) and x.value.id == name and isinstance(x.ctx, ast.Load)
+                    and isinstance(x.slice, ast.Constant) and isinstance(x.slice.value, int) and 0 <= x.slice.value < len(records[r][0])]
+            stores = [x for x in uses if isinstance(x.ctx, ast.Store)]
+            if not loads or len(subs) != len(loads) or len(stores) != 1:
+                continue
+            fields = records[r][0]
+            fresh = [f"_r_{fl}" for fl in fields]
+            if any(isinstance(x, ast.Name) and x.id in fresh for x in ast.walk(f)):
+                continue
+            st = stores[0]
+            tup = loc(ast.Tuple(elts=[ast.Name(id=v, ctx=ast.Store()) for v in fresh], ctx=ast.Store()), st)
+            if not _replace_node(f, st, tup):
+                continue
+            for x in subs:
+                _replace_node(f, x, loc(ast.Name(id=fresh[x.slice.value], ctx=ast.Load()), x))
+            n_unpack += 1
+    for t in trees.values():
+        for n in ast.walk(t):
+            for fld, val in ast.iter_fields(n):
+                vals = val if isinstance(val, list) else [val]
+                for k, x in enumerate(vals):
+                    if isinstance(x, ast.Call) and ctor(x) and not any(isinstance(a, ast.Starred) for a in x.args) and all(kw.arg for kw in x.keywords):
+                        fields = records[ctor(x)][0]
+                        given = dict(zip(fields, x.args))
+                        given.update({kw.arg: kw.value for kw in x.keywords})
+                        if list(given) and all(fl in given for fl in fields) and len(given) == len(fields):
+                            tup = loc(ast.Tuple(elts=[given[fl] for fl in fields], ctx=ast.Load()), x)
+                            if isinstance(val, list):
+                                val[k] = tup
+                            else:
+                                setattr(n, fld, tup)
+                            n_ctor += 1
+    for name, (fields, m, node) in records.items():
+        if not any(isinstance(x, ast.Name) and x.id == name for t in trees.values() for x in ast.walk(t) if x is not node and not (isinstance(node, ast.Assign) and x is node.targets[0])):
+            trees[m].body.remove(node)
+    stats["private-records-undone"] = stats.get("private-records-undone", 0) + len(records)
+    stats.setdefault("records", []).append(f"{sorted(records)}: {n_ctor} constructions, {n_fields} field reads, {n_unpack} unpacked")
+
+
+def _owner_function(node, fn):
+    """True when the innermost function containing `node` (searching inside fn) is fn itself."""
+    for g in ast.walk(fn):
+        if g is not fn and isinstance(g, FUNC + (ast.Lambda,)) and any(x is node for x in ast.walk(g)):
+            return False
+    return True
+
+
+def strip_diagnostics(trees, stats=None):
+    """Diagnostics that cannot influence a property: calls on a module-level logger (`_log = logging.getLogger(..)`; `_log.debug(fmt, a, b)`
+    with arguments that are plain names / attribute chains / constants / subscripts of those) are dropped, together with the logger and an
+    `import logging` nothing else uses; `raise X from Y` is `raise X` (only __cause__ / __suppress_context__ differ)."""
+    stats = stats if stats is not None else {}
+    n_log = n_from = 0
+
+    def plain(e):
+        if isinstance(e, (ast.Name, ast.Constant)):
+            return True
+        if isinstance(e, ast.Attribute):
+            return plain(e.value)
+        if isinstance(e, ast.Subscript):
+            return plain(e.value) and plain(e.slice)
+        if isinstance(e, (ast.Tuple, ast.List)):
+            return all(plain(x) for x in e.elts)
+        if isinstance(e, ast.Call) and isinstance(e.func, ast.Name) and e.func.id in ("len", "id", "type") and len(e.args) == 1 and not e.keywords:
+            return plain(e.args[0])
+        return False
+    for tree in trees.values():
+        loggers = set()
+        for st in tree.body:
+            if isinstance(st, ast.Assign) and len(st.targets) == 1 and isinstance(st.targets[0], ast.Name) and isinstance(st.value, ast.Call) \
+                    and ast.unparse(st.value.func) in ("logging.getLogger", "getLogger"):
+                loggers.add(st.targets[0].id)
+        for n in ast.walk(tree):
+            if isinstance(n, ast.Raise) and n.cause is not None and plain(n.cause):
+                n.cause = None
+                n_from += 1
+        if not loggers:
+            continue
+        for holder in ast.walk(tree):
+            for fld in ("body", "orelse", "finalbody"):
+                block = getattr(holder, fld, None)
+                if not isinstance(block, list) or not block or not isinstance(block[0], ast.stmt):
+                    continue
+                out = []
+                for st in block:
+                    if isinstance(st, ast.Expr) and isinstance(st.value, ast.Call) and isinstance(st.value.func, ast.Attribute) and isinstance(st.value.func.value, ast.Name) \
+                            and st.value.func.value.id in loggers and st.value.func.attr in ("debug", "info", "warning", "error", "log", "exception", "critical") \
+                            and all(plain(a) for a in st.value.args) and all(plain(k.value) for k in st.value.keywords):
+                        n_log += 1
+                        continue
+                    out.append(st)
+                if not out:
+                    out = [ast.copy_location(ast.Pass(), block[0])]
+                setattr(holder, fld, out)
+        used = {x.id for x in ast.walk(tree) if isinstance(x, ast.Name) and isinstance(x.ctx, ast.Load)}
+        tree.body = [st for st in tree.body if not (isinstance(st, ast.Assign) and len(st.targets) == 1 and isinstance(st.targets[0], ast.Name)
+                                                    and st.targets[0].id in loggers and st.targets[0].id not in used)]
+        used = {x.id for x in ast.walk(tree) if isinstance(x, ast.Name) and isinstance(x.ctx, ast.Load)}
+        tree.body = [st for st in tree.body if not (isinstance(st, ast.Import) and len(st.names) == 1 and st.names[0].name == "logging" and (st.names[0].asname or "logging") not in used)]
+    # except E as err: where err is no longer read -> except E:
+    for tree in trees.values():
+        for h in ast.walk(tree):
+            if isinstance(h, ast.ExceptHandler) and h.name and not any(isinstance(x, ast.Name) and x.id == h.name for b in h.body for x in ast.walk(b)):
+                h.name = None       # bound and never read: nothing observes it
+    if n_log:
+        stats["logging-calls-dropped"] = stats.get("logging-calls-dropped", 0) + n_log
+    if n_from:
+        stats["raise-from-dropped"] = stats.get("raise-from-dropped", 0) + n_from
+
+
 def strip_annotations(trees, stats=None):
     """Type hints have no runtime meaning in ptera's own source (nothing reads the annotations of ptera's functions): parameter and
     return annotations are dropped, `x: T = v` is `x = v`, a bare `x: T` is nothing; `NAME = lambda a: E` is `def NAME(a): return E`
